@@ -903,7 +903,7 @@ func main() {
 		"x truncation of the records bytes at EVERY byte boundary x requested offset in [first-1,last+1] x KeepControlRecords x isolation level x every permutation " +
 		"of every broker-consistent aborted list (+ one irrelevant entry). Singles [thorough: and the pairs of the multi-unit catalogue]: full cross product; other responses: all views at the key cuts " +
 		"(unit ends, one byte before, full length) and the base views (every requested offset x keep x {read_uncommitted, read_committed with the canonical list and its reverse}) at every other byte. Sweep 2 (strong oracle): every byte string of length 1..2 appended to every byte-prefix " +
-		"of single-unit responses. Sweep 3 (weak oracle: no panic, offsets strictly increasing and >= requested, next offset >= requested): " +
+		"of single-unit responses (two-byte strings: a stated subset of kinds, see appended_two_byte_strings). Sweep 3 (weak oracle: no panic, offsets strictly increasing and >= requested, next offset >= requested): " +
 		"every substitution from {00,01,7f,80,ff} at every byte of every single-unit response [thorough: and every pair of the triples catalogue], CRC validation on and off. " +
 		"distinct_nontrivial counts distinct (response, complete units, view, outcome) classes at the key cuts plus distinct outcomes of the arbitrary-byte sweeps.")
 	r.Assume("the harness's reference decoder/encoder (package reflog) implements the Kafka message format documentation (record batch v2, message v0/v1, KIP-32 wrapper rules)",
@@ -980,7 +980,7 @@ func main() {
 	for _, k := range S {
 		resp := mkResponse(5, 0, k)
 		maxLen := 1
-		if thorough || (k.sets&setM0 != 0 && k.pid != 2 && !strings.Contains(k.name, "idem") && !strings.Contains(k.name, "lz4")) {
+		if (thorough && k.sets&setFull != 0) || (k.sets&setM0 != 0 && k.pid != 2 && !strings.Contains(k.name, "idem") && !strings.Contains(k.name, "lz4")) {
 			maxLen = 2
 		}
 		for cut := 0; cut <= len(resp.data); cut++ {
@@ -988,9 +988,8 @@ func main() {
 			jobs = append(jobs, func(w *worker) { exploreAppended(w, resp, cut, maxLen) })
 		}
 	}
-	if !thorough {
-		r.Set("appended_two_byte_strings", "single-unit kinds of the triples catalogue with producer 1 / no producer only (thorough: every kind)")
-	}
+	r.Set("appended_two_byte_strings", map[bool]string{false: "single-unit kinds of the triples catalogue with producer 1 / no producer (11 kinds); one-byte strings: every kind",
+		true: "single-unit kinds of the all-codec pair catalogue (104 kinds); one-byte strings: every kind"}[thorough])
 	runJobs(r, "sweep2_appended_bytes", jobs, deadline)
 
 	r.Set("bound_completed", map[string]any{"units_per_response": map[bool]int{false: 2, true: 3}[thorough], "truncation": "every byte boundary",
